@@ -124,6 +124,21 @@ class KaniProp:
                 if k.startswith("END") or k.startswith("INFO"):
                     continue
                 cov_all[k] = cov_all.get(k, False) or (v == "SATISFIED")
+        # known findings are encoded as covers "KNOWN-FINDING <id> ..." whose shape predicate lives in the harness
+        kf_ids = {f["id"]: f for f in kf.get("findings", [])}
+        for k, v in list(cov_all.items()):
+            if k.startswith("KNOWN-FINDING"):
+                fid = k.split()[1]
+                del cov_all[k]
+                if not v:
+                    continue
+                f = kf_ids.get(fid)
+                if f and pid in f["properties"]:
+                    known.append((f, "cover", k))
+                elif f:
+                    pass  # listed, but under another property: that property's check prints it
+                else:
+                    inconclusive.append("finding shape %s is reachable but not listed in known_findings.json" % fid)
         unsat_covers = [k for k, v in cov_all.items() if not v]
         for kfm, hn, desc in known:
             print("KNOWN-FINDING: property=%s %s [%s: %s]" % (pid, kfm["what"], hn, desc))
@@ -254,7 +269,7 @@ class KaniProp:
 
 def match_known(kf, pid, inst, desc):
     for f in kf.get("findings", []):
-        if f["property"] != pid:
+        if pid not in f.get("properties", []) or "harness_re" not in f:
             continue
         if not re.search(f["harness_re"], inst.name):
             continue
@@ -370,7 +385,31 @@ boxcar = KaniProp("nucleo", nucleo_props.boxcar_instances, "C08", shims=NUCLEO_S
                   outside=["interleavings of concurrent push/extend/get (Kani has no threads; CBMC's thread encoding rejects Rust-generated pointer code) - sequential histories only",
                            "fill callbacks that panic (panic=abort under Kani)", "histories longer than the per-tier bound"])
 
+proto = KaniProp("nucleo", nucleo_props.proto_instances, "C06", shims=NUCLEO_SHIMS, gen_mod=nucleo_props,
+                 functions=["Nucleo::{new, injector, restart, tick, tick_inner, active_injectors, snapshot}", "Injector::{clone, drop, push}", "Snapshot::{update, clear}",
+                            "Worker::{new, run, process_new_items, process_new_items_trivial, reset_matches, remove_in_flight_matches, item_count}", "State::*", "MultiPattern::{status, reset_status}",
+                            "boxcar::Vec::*", "par_sort::par_quicksort"],
+                 assumptions=NUCLEO_ASSUME + ["sequentialised schedules: the harness is the UI thread; the background run executes as one uninterrupted call at a solver-chosen point (inside a blocking lock, inside a timed lock, or between two UI operations)",
+                                              "small geometry (bucket SKIP 2, eager capacity clamp 2, scratch slab 304 bytes)"],
+                 outside=["preemption of a run by the UI thread other than at the modelled points", "more than one pool task pending", "weak-memory effects on the flags (the model is sequentially consistent)", "histories longer than the per-tier bound"])
+
+compose = KaniProp("nucleo-matcher", matcher_props.compose_instances, "C15",
+                   functions=["Pattern::score", "Pattern::indices", "Pattern::match_list", "Atom::score", "Atom::indices"],
+                   assumptions=["the ten Matcher entry points are replaced by consistent nondeterministic stubs (a function of atom and haystack); the real entry points are the subject of C01-C05/C10",
+                                "native replay realises the drawn outcome pattern with the real matcher (haystack j contains atom a's letter iff the table said it matches) and checks the same assertions against the real per-atom results"],
+                   outside=["more than 3 atoms / 3 inputs", "MultiPattern::score across columns is checked by the nucleo-crate harness multi_compose"])
+
+utf32 = KaniProp("nucleo-matcher", matcher_props.utf32_instances, "C17",
+                 functions=["Utf32Str::{new, len, is_empty, slice, slice_u32, get, chars, is_ascii}", "Utf32String::{from(&str), from(String), from(Box<str>), from(Cow), slice}", "has_ascii_graphemes", "chars::graphemes (CR LF special case)", "Chars::{next, next_back}"],
+                 assumptions=["grapheme cluster boundaries are taken from unicode-segmentation (environment); under Kani only ASCII text (where every cluster is one byte except CR LF) goes through it",
+                              "memchr::memmem::find is the shim's"],
+                 outside=["multi-code-point clusters (combining marks, emoji sequences, Hangul jamo, regional indicators): GraphemeCursor on symbolic non-ASCII text is beyond CBMC's reach here; not claimed",
+                          "Display / Debug formatting (std formatting machinery)", "strings longer than the per-tier bound"])
+
 PROPS = {
+    "C17": utf32,
+    "C15": compose,
+    "C20": proto,
     "C18": sort,
     "C08": boxcar,
     "C11": boxcar,
